@@ -205,6 +205,12 @@ func Execute(t *testing.T, w *Workload, picker core.Picker, maxSteps int) *Outco
 		}
 		return nil
 	}
+	if hasBuggify(w, "debug-log") {
+		old := logrus.GetLevel()
+		logrus.SetLevel(logrus.DebugLevel)
+		defer logrus.SetLevel(old)
+		o.Probes.Inc("buggify_debug_log_level")
+	}
 	if hasBuggify(w, "short-reads") {
 		chunk := int(w.Seed%13) + 1
 		fs.ReadChunk = func(string) int { return chunk }
